@@ -111,7 +111,16 @@ CountSpecs == {
   [ct |-> 20, payload |-> [j \in 1..16640 |-> 1], want |-> RepMsg([t |-> "ccs"], 16640), wantp |-> 16640, clean |-> TRUE, kind |-> "count"],
   [ct |-> 22, payload |-> Concat(RepMsg(<<0, 0, 0, 0>>, 4097)), want |-> RepMsg([t |-> "hs", m |-> [t |-> "HelloRequest"]], 4097),
    wantp |-> 16388, clean |-> TRUE, kind |-> "count"] }
-SpecsDef == SetToSeq(HsSpecs \cup CountSpecs
+(* well-formed payloads just above the record-length cap, whole: one-step and two-step parsing both refuse the record (TooLarge), *)
+(* whatever its content type                                                                                                      *)
+OversizeSpecs == {
+  [ct |-> 23, payload |-> Fill(1, 16641), want |-> <<>>, wantp |-> 0, clean |-> FALSE, kind |-> "oversize"],
+  [ct |-> 23, payload |-> Fill(2, 65535), want |-> <<>>, wantp |-> 0, clean |-> FALSE, kind |-> "oversize"],
+  [ct |-> 22, payload |-> Concat(RepMsg(<<0, 0, 0, 0>>, 4161)), want |-> <<>>, wantp |-> 0, clean |-> FALSE, kind |-> "oversize"],
+  [ct |-> 21, payload |-> Concat(RepMsg(<<1, 0>>, 8321)), want |-> <<>>, wantp |-> 0, clean |-> FALSE, kind |-> "oversize"],
+  [ct |-> 20, payload |-> [j \in 1..16641 |-> 1], want |-> <<>>, wantp |-> 0, clean |-> FALSE, kind |-> "oversize"],
+  [ct |-> 24, payload |-> <<1, 64, 254>> \o Fill(3, 16638), want |-> <<>>, wantp |-> 0, clean |-> FALSE, kind |-> "oversize"] }
+SpecsDef == SetToSeq(HsSpecs \cup CountSpecs \cup OversizeSpecs
                   \cup ListSpecs(21, AlertItems, 3, {<<>>, <<1>>})
                   \cup ListSpecs(20, CcsItems, 3, {<<>>})
                   \cup HbSpecs \cup AppSpecs \cup OtherSpecs)
@@ -144,14 +153,15 @@ MsgsOf(j, r) == IF FnOf(j) = "parse_tls_plaintext" THEN r.v.msg ELSE r.v
 (* nothing when the first message is malformed, cut short, or the type is unknown  *)
 ExactMessages ==
   LET s == SpecOf(i) IN
-  IF s.want # <<>> THEN cres.k = "ok" /\ MsgsOf(i, cres) = s.want
+  IF s.kind = "oversize" THEN (FnOf(i) # "parse_tls_record_with_header" => (cres.k \in {"err", "fail"} /\ cres.e = "TooLarge"))   \* (the with-header entry point has no cap)
+  ELSE IF s.want # <<>> THEN cres.k = "ok" /\ MsgsOf(i, cres) = s.want
   ELSE cres.k # "ok"
 
 (* two-step parsing returns the undecoded tail as remainder; one-step consumes the record *)
 RemainderAtTail ==
   LET s == SpecOf(i) IN
   res.k = "ok" => IF FnOf(i) = "parse_tls_plaintext" THEN res.p = 5 + Len(s.payload)
-                  ELSE IF s.kind \in {"hb", "app"} THEN TRUE
+                  ELSE IF s.kind \in {"hb", "app", "oversize"} THEN TRUE
                   ELSE res.p = Off(i) + s.wantp
 
 (* a complete record never answers Incomplete (one-step) *)
@@ -167,6 +177,7 @@ OneStepEqTwoStep ==
        /\ a.k = "ok" => a.v.msg = b.v
 
 Pin == IF res.k = "ok" THEN "full"
+       ELSE IF SpecOf(i).kind = "oversize" THEN "err_kind"
        ELSE IF FnOf(i) = "parse_tls_plaintext" THEN "reject" ELSE "novalue"
 
 EmitCase ==
